@@ -255,7 +255,16 @@ func (ctx Ctx) addSourceFile(node ast.Node, comment *string) {
 	*comment += fmt.Sprintf("go: %s", ctx.where(node))
 }
 
+// checkCoqName rejects a top-level name that Coq could not read as the name
+// of a definition.
+func (ctx Ctx) checkCoqName(n ast.Node, name string) {
+	if coq.IsReservedWord(name) {
+		ctx.unsupported(n, "the name %s is a reserved word in Coq", name)
+	}
+}
+
 func (ctx Ctx) typeDecl(doc *ast.CommentGroup, spec *ast.TypeSpec) coq.Decl {
+	ctx.checkCoqName(spec.Name, spec.Name.Name)
 	if spec.TypeParams != nil {
 		ctx.futureWork(spec, "generic named type (e.g. no generic structs)")
 	}
@@ -2001,6 +2010,7 @@ func (ctx Ctx) funcDecl(d *ast.FuncDecl) coq.FuncDecl {
 		fd.Args = append(fd.Args, ctx.field(rcvr))
 	}
 
+	ctx.checkCoqName(d.Name, fd.Name)
 	fd.Args = append(fd.Args, ctx.paramList(d.Type.Params)...)
 	fd.ReturnType = ctx.returnType(d.Type.Results)
 	fd.Body = ctx.blockStmt(d.Body, ExprValReturned)
@@ -2010,6 +2020,7 @@ func (ctx Ctx) funcDecl(d *ast.FuncDecl) coq.FuncDecl {
 
 func (ctx Ctx) constSpec(spec *ast.ValueSpec) coq.ConstDecl {
 	ident := spec.Names[0]
+	ctx.checkCoqName(ident, ident.Name)
 	cd := coq.ConstDecl{
 		Name:     ident.Name,
 		AddTypes: ctx.PkgConfig.TypeCheck,
